@@ -181,6 +181,13 @@ class SymArray:
                 elif not isinstance(c, (SB, bool)):
                     out[idx] = bool(c)
             return SymArray(out, dt)
+        if dt.kind in "US" and builtins.all(isinstance(c, (int, float, str, _np.integer, _np.floating, _np.str_)) and not isinstance(c, bool) for c in self.a.flat):
+            # concrete labels only (e.g. survey ids): numpy's own conversion
+            conv = _np.array(self.a.tolist()).astype(dt)
+            out = _np.empty(self.a.shape, dtype=object)
+            for idx in _np.ndindex(out.shape):
+                out[idx] = str(conv[idx])
+            return SymArray(out, conv.dtype)
         raise UnsupportedByShim("astype(%s)" % dt)
 
     def __bool__(self):
@@ -285,6 +292,16 @@ class SymArray:
             v = _obj(v)
         elif isinstance(v, (list, tuple)):
             v = _obj(v)
+        dt = getattr(self, "dtype", None)
+        if dt is not None and getattr(dt, "kind", None) == "U":
+            # fixed-width text array: numpy converts to str and silently truncates to the item width
+            width = dt.itemsize // 4
+
+            def conv(c):
+                if is_sym(c):
+                    raise UnsupportedByShim("symbolic value stored in a text array")
+                return str(c)[:width]
+            v = _np.array([conv(c) for c in v.flat], dtype=object).reshape(v.shape) if isinstance(v, _np.ndarray) else conv(v)
         self.a[kk] = v
 
     # -- arithmetic
@@ -581,7 +598,7 @@ def _shape(s):
 def zeros(shape, dtype=float, order=None):
     dt = _np.dtype(dtype)
     out = _np.empty(_shape(shape), dtype=object)
-    out[...] = False if dt.kind == "b" else (0 if dt.kind in "iu" else 0.0)
+    out[...] = False if dt.kind == "b" else (0 if dt.kind in "iu" else ("" if dt.kind in "US" else 0.0))
     return SymArray(out, dt)
 
 
@@ -616,6 +633,8 @@ def array(x, dtype=None, copy=True):
     if a.size == 0 and dtype is None:
         return SymArray(a.copy(), _F8)
     r = SymArray(a.copy())
+    if dtype is None and a.size and builtins.all(isinstance(c, str) for c in a.flat):
+        r.dtype = _np.array(a.tolist()).dtype          # '<U<longest>' as numpy infers it
     return r.astype(dtype) if dtype is not None else r
 
 
@@ -857,13 +876,17 @@ def _cmp_nonfinite(a, b, op):
 
 class FinCell(SN):
     """a real cell with a symbolic 'is finite' flag: value `e` when the flag holds, some non-finite
-    float otherwise.  Arithmetic uses the value (the code under test is expected to filter on
-    isfinite first; VCs only speak about cells whose flag holds)."""
+    float otherwise.  Arithmetic propagates the flag (result finite iff all operands are); a comparison
+    involving a cell whose flag does not hold is an unconstrained Boolean (NaN: False, +-inf: either).
+    VCs only speak about cells whose flag holds."""
     __slots__ = ("flag",)
 
     def __init__(self, e, flag):
         SN.__init__(self, e)
         self.flag = flag
+
+
+core.FINCELL[0] = FinCell
 
 
 class MaybeFinite:
@@ -1206,8 +1229,29 @@ def shape(x):
     return _obj(x).shape
 
 
-def allclose(*a, **k):
-    raise UnsupportedByShim("allclose")
+def isclose(a, b, rtol=1e-05, atol=1e-08, equal_nan=False):
+    """|a - b| <= atol + rtol * |b| elementwise (numpy's definition; finite cells)"""
+    from fractions import Fraction as _Fr
+    a, b = _as(a), _as(b)
+    sh = _np.broadcast_shapes(a.a.shape, b.a.shape)
+    aa, bb = _np.broadcast_to(a.a, sh), _np.broadcast_to(b.a, sh)
+    out = _np.empty(sh, dtype=object)
+    rt, at = _Fr(repr(float(rtol))), _Fr(repr(float(atol)))
+    for idx in _np.ndindex(sh):
+        x, y = aa[idx], bb[idx]
+        if isinstance(x, NonFinite) or isinstance(y, NonFinite):
+            raise UnsupportedByShim("isclose on non-finite cells")
+        if is_sym(x) or is_sym(y):
+            X = x if isinstance(x, SN) else SN(core.lift(x))
+            Y = y if isinstance(y, SN) else SN(core.lift(y))
+            out[idx] = abs(X - Y) <= abs(Y) * rt + at
+        else:
+            out[idx] = bool(_np.isclose(x, y, rtol=rtol, atol=atol))
+    return SymArray(out, _B1)
+
+
+def allclose(a, b, rtol=1e-05, atol=1e-08, equal_nan=False):
+    return all(isclose(a, b, rtol=rtol, atol=atol, equal_nan=equal_nan))
 
 
 # -- a wider slice of the numpy API (thin wrappers over the primitives above) ------------------
